@@ -13,6 +13,7 @@ import numpy as np
 
 from gnpy.core.elements import Edfa, Multiband_amplifier, Roadm, Fiber, Transceiver, Fused
 from gnpy.core.parameters import SimParams
+from gnpy.core.exceptions import DisjunctionError
 from gnpy.tools.json_io import network_to_json
 from gnpy.tools.worker_utils import planning
 
@@ -28,10 +29,10 @@ RULE = ('generated designed meshes (low p_max amplifier models in half of the ca
         'that contains at least one saturating or blocked request next to a served one. Distinct: hash of (topology, '
         'batch).'
         ' Also point-to-point lines without ROADMs.')
-ASSUMPTIONS = ['batches carry no synchronisation vectors and no aggregatable duplicates (their coupling is the subject of '
-               'C12 / C19)', 'spectrum labels and spectrum-related blocking reasons are excluded as the statement says',
+ASSUMPTIONS = ['batches carry no aggregatable duplicates (C19); batches with synchronisation vectors are compared over orders of '
+               'the whole batch only (a disjoint partner legitimately changes the route: C12)', 'spectrum labels and spectrum-related blocking reasons are excluded as the statement says',
                'results compared exactly (same floating point values)']
-REQUIRED_COUNTERS = {'planning_runs': 60, 'request_results_compared': 300, 'network_digest_checks': 60,
+REQUIRED_COUNTERS = {'batches_with_synchronisation_vectors': 5, 'sim_params_checks': 60, 'planning_runs': 60, 'request_results_compared': 300, 'network_digest_checks': 60,
                      'saturating_propagations': 10}
 CASE_TIMEOUT = {'quick': 400, 'thorough': 800}
 SPECTRUM_REASONS = ('NO_SPECTRUM', 'NOT_ENOUGH_RESERVED_SPECTRUM')
@@ -39,7 +40,14 @@ SPECTRUM_REASONS = ('NO_SPECTRUM', 'NOT_ENOUGH_RESERVED_SPECTRUM')
 
 def plan(tier, seed):
     n = 84 if tier == 'quick' else 2000
-    return [{'idx': i, 'kind': ['plain', 'sat', 'plain', 'sat', 'p2p', 'multiband'][i % 6]} for i in range(n)]
+    n = 112 if tier == 'quick' else 2600
+    return [{'idx': i, 'kind': ['plain', 'sat', 'plain', 'sat', 'p2p', 'multiband', 'ggn', 'sync'][i % 8]}
+            for i in range(n)]
+
+
+def sim_json():
+    d = SimParams._shared_dict
+    return {k: (json.loads(json.dumps(vars(v), default=str)) if hasattr(v, '__dict__') else v) for k, v in d.items()}
 
 
 def digest_network(network):
@@ -134,6 +142,8 @@ def build(rng, kind):
     if kind == 'p2p':
         # point-to-point line without ROADMs, both directions
         tj = G.gen_p2p(rng, both=True, max_km=110)
+    elif kind == 'ggn':
+        tj, _ = G.gen_topology(rng, n_sites=2, max_spans=2, whole_km=True, max_km=90, user_amps=False, fused=False)
     else:
         tj, _ = G.gen_topology(rng, n_sites=rng.randint(2, 4), max_spans=3, whole_km=True, max_km=110,
                                user_amps=rng.random() < 0.5)
@@ -144,14 +154,17 @@ def build(rng, kind):
     return ej, tj, equipment, network
 
 
-def gen_batch(rng, trx, sites_of):
+def gen_batch(rng, trx, sites_of, case_kind=None):
     reqs = []
-    n = rng.randint(2, 8)
+    n = rng.randint(2, 8) if case_kind != 'ggn' else rng.randint(2, 4)
     for i in range(n):
         a, z = rng.sample(trx, 2)
-        kind = G.pick(rng, ['fixed', 'fixed', 'auto', 'dense', 'hot', 'impossible', 'strict-unsat', 'bidir'])
+        kind = G.pick(rng, ['fixed', 'fixed', 'auto', 'dense', 'hot', 'impossible', 'strict-unsat', 'bidir', 'imposed'])
         if kind == 'strict-unsat' and not sites_of:
             kind = 'bidir'
+        if case_kind == 'ggn':
+            # generalised GN methods: combs narrower and wider than the configured number of channels under test
+            kind = G.pick(rng, ['sparse', 'sparse', 'wide', 'wide', 'imposed'])
         kw = dict(trx_type='Voyager', trx_mode=G.pick(rng, ['mode 1', 'mode 2', 'mode 3', 'mode 4']),
                   spacing=G.pick(rng, [75e9, 87.5e9]), max_nb=G.pick(rng, [None, 20, 40]))
         if kind == 'auto':
@@ -171,6 +184,15 @@ def gen_batch(rng, trx, sites_of):
             kw.update(trx_mode='mode 1', spacing=50e9)
         elif kind == 'bidir':
             kw['bidir'] = True
+        elif kind == 'imposed':
+            # the user imposes the position of the frequency slot (only the spectrum outcome may depend on the batch)
+            kw.update(trx_mode='mode 1', spacing=50e9, slots=[{'N': G.pick(rng, [-200, -120, 0, 40, 160]), 'M': 8}])
+            if case_kind == 'ggn':
+                kw['max_nb'] = 3
+        elif kind == 'sparse':
+            kw.update(trx_mode='mode 1', spacing=G.pick(rng, [50e9, 100e9]), max_nb=G.pick(rng, [2, 2, 3]))   # (one channel alone: the GGN methods raise IndexError, noted in DESIGN 12)
+        elif kind == 'wide':
+            kw.update(trx_mode='mode 1', spacing=50e9, max_nb=G.pick(rng, [7, 9, 12]))
         if kw.get('trx_mode') == 'mode 1' and kind in ('fixed', 'bidir'):
             kw['spacing'] = G.pick(rng, [50e9, 62.5e9])
         r = S.request(f'r{i}', a, z, **kw)
@@ -178,7 +200,7 @@ def gen_batch(rng, trx, sites_of):
         r['path-constraints']['te-bandwidth']['path_bandwidth'] = 100e9 + i * 1e9
         r['_kind'] = kind
         reqs.append(r)
-    if rng.random() < 0.6:
+    if rng.random() < 0.6 and case_kind != 'ggn':
         # twins: a second request between the same end points that differs from an earlier one in ONE respect only
         # (hop types, mode, spacing, launch power, comb size, direction flag, satisfiable or not route list).  Whatever
         # is shared or memoised between the requests of a batch must be keyed by all of these.
@@ -231,9 +253,35 @@ def run_case(case, ctx):
     else:
         model = S.SiteModel(network)
         trx, sites_of = sorted(model.roadm_of), model.roadm_of
-    batch = gen_batch(rng, trx, sites_of)
+    batch = gen_batch(rng, trx, sites_of, case['kind'])
     kinds = {r['request-id']: r.pop('_kind') for r in batch}
     ids = [r['request-id'] for r in batch]
+    sim = {}
+    if case['kind'] == 'ggn':
+        sim = {'nli_params': {'method': G.pick(rng, ['ggn_approx', 'ggn_approx', 'ggn_spectrally_separated']),
+                              'dispersion_tolerance': 1, 'phase_shift_tolerance': 0.1,
+                              'computed_number_of_channels': G.pick(rng, [4, 5, 6])}}
+    sync = []
+    if case['kind'] == 'sync' and sites_of:
+        # synchronisation vectors: the group is one unit; every ORDER of the whole batch must give every request the
+        # same result (members that compete for the same shortest route included); vectors list their members in an
+        # order of their own
+        for r in batch:
+            r.pop('explicit-route-objects', None)
+        pool = ids[:]
+        rng.shuffle(pool)
+        if len(pool) >= 2 and rng.random() < 0.6:
+            # competing members: same end points
+            a = next(r for r in batch if r['request-id'] == pool[0])
+            b = next(r for r in batch if r['request-id'] == pool[1])
+            b['source'], b['destination'] = a['source'], a['destination']
+            b['src-tp-id'], b['dst-tp-id'] = a['src-tp-id'], a['dst-tp-id']
+        while len(pool) >= 2 and len(sync) < 2:
+            g = [pool.pop(), pool.pop()]
+            if pool and rng.random() < 0.3:
+                g.append(pool.pop())
+            sync.append(S.synchronization(300 + len(sync), g))
+        ctx.count('batches_with_synchronisation_vectors')
     base_digest = digest_network(network)
     net_ids = {id(n) for n in network.nodes()}
     attach.install()
@@ -241,7 +289,7 @@ def run_case(case, ctx):
     runs = []
     # compositions: whole batch, each alone (up to 4), reversed, rotations, random orders
     orders = [ids[:]]
-    for i in rng.sample(ids, min(4, len(ids))):
+    for i in rng.sample(ids, min(4, len(ids))) if not sync else []:
         orders.append([i])
     orders.append(list(reversed(ids)))
     for i in rng.sample(ids, min(2, len(ids))):
@@ -257,8 +305,31 @@ def run_case(case, ctx):
     touched_network_objects = 0
     for order in orders:
         data = {'path-request': [deepcopy(next(r for r in batch if r['request-id'] == i)) for i in order]}
+        if sync:
+            data['synchronization'] = deepcopy(sync)
         attach.reset()
-        oms_list, prop, rprop, rqs, dsjn, result = planning(network, equipment, data)
+        SimParams.set_params(deepcopy(sim))
+        sim_before = json.dumps(sim_json(), sort_keys=True, default=repr)
+        try:
+            oms_list, prop, rprop, rqs, dsjn, result = planning(network, equipment, data)
+        except DisjunctionError:
+            # no disjoint combination: the same for every order of the batch
+            ctx.count('planning_runs')
+            if ref.setdefault('__error__', order) is not order and any(k != '__error__' for k in ref):
+                ctx.violation('result-depends-on-batch', f'disjunction error for batch order {order} only')
+            continue
+        finally:
+            sim_after = json.dumps(sim_json(), sort_keys=True, default=repr)
+            SimParams.set_params({})
+        if '__error__' in ref:
+            ctx.violation('result-depends-on-batch', f'disjunction error for batch order {ref["__error__"]} but not for {order}')
+            return
+        ctx.count('sim_params_checks')
+        if sim_before != sim_after:
+            ctx.violation('sim-params-changed', f'planning {order} changed the process-wide simulation parameters',
+                          {'before': json.loads(sim_before), 'after': json.loads(sim_after)})
+            ctx.dump.update({'topology': tj, 'batch': batch, 'order': order})
+            return
         ctx.count('planning_runs')
         touched_network_objects += sum(1 for e in attach.EVENTS if id(e['el']) in net_ids)
         sat = sum(1 for e in attach.EVENTS if e['type'] == 'Edfa' and e.get('post') and e['pre']['effective_gain'] is not None
@@ -293,6 +364,7 @@ def run_case(case, ctx):
                 return
         runs.append(order)
     ctx.count('propagations_on_network_objects', touched_network_objects)
+    ref.pop('__error__', None)
     reasons = {i: ref[i][0]['reason'] for i in ref}
     if (saturated_any or any(reasons.values())) and any(v is None for v in reasons.values()):
         ctx.nontrivial((P.digest(tj), P.digest(batch)))
